@@ -4,6 +4,23 @@ NOTES = ("Every check re-compiles coq/theories/Properties/<id>.v (theorems over 
          "implementation. See DESIGN.md. known_findings.json lists recorded defects; replays/ is written only on failure.")
 NOT_APPLICABLE = {}
 CLAIMS = {
+    "C04": {
+        "text": "Theorems over the Fetch model for every env and every canon oracle (closed under the global context): every Ok result has exactly the master's structure - one block per "
+                "active master entry in master order, every result object carrying the master's header and attribute list, non-multiple definitions once (deprecated ones only when a "
+                "source differs), scopes recursively, multiple entries as template (exact is_template rule) followed by instances, nothing undeclared (C04_shape needs no well-formedness "
+                "hypothesis: ill-formed masters end in an error); disabled source objects are ignored entirely and the result depends on $-free sources only through their stripped view "
+                "(splitting/positions/contexts immaterial); a disabled master object never influences the result. PARTIAL for sources with $variables in the disabled clause (rests on the "
+                "F10 repair; compared on every run).",
+        "note": "Trusted: Coq kernel, extraction, driver, harness, hand-written model of scope.fetch / definition.fetch* (Fetch.v) on top of Vars.v and Choice.v; the canonical rendering "
+                "extract_format().as_str() is an oracle table recorded from the implementation; alias masters, custom converters, skip_incompatible_objects=True unmodelled.",
+    },
+    "C06": {
+        "text": "Theorems over the Fetch model for every env and canon oracle: tracking does not change the result; on Ok runs with $-free sources the unused list is exactly the active "
+                "source definitions (document order, path and line) whose position names no active master parameter under get_without_substitution matching (C06_exact against the "
+                "specification `named`); the variable exception is stated exactly (definitions marked by resolve_variables are left out) and witnessed; scope/definition clashes never end "
+                "in Ok; stale tmp marks are irrelevant for any initial marks.",
+        "note": "Trusted as C04. tmp marks are modelled as consumed positions (source index + index path), not as mutable fields.",
+    },
     "C12": {
         "text": "Theorems over the Vars model (24, closed under the global context): single-quoted and $-free words pass through unchanged; a sole unquoted variable yields the "
                 "referenced words verbatim, any other mixture exactly one double-quoted word; the lookup finds only strictly earlier definitions, the innermost scope first, the last "
